@@ -1569,6 +1569,8 @@ def main():
     out = ['-- GENERATED by tools/mir2lean.py from rustc MIR; do not edit.', 'import LymuiVerif.Core.StrShims', 'set_option linter.unusedVariables false', 'namespace Gen', 'open Flt', '']
     for nm, d in const_defs: out.append(d)
     out.append('')
+    renamed = rename_like_reference(emitted, _ref_blocks(os.path.join(out_path, 'Model.lean')), report)
+    if renamed: sys.stderr.write('mir2lean: functions renamed w.r.t. the reference, emitted under the reference name: ' + ', '.join(f'{a} (was {b})' for a, b in sorted(renamed.items())) + '\n')
     names = list(emitted)
     deps = {n: sorted(m for m in emitted[n][1] if m in emitted and m != n) for n in names}
     done, order = set(), []
@@ -1762,6 +1764,37 @@ def orient_like_reference(txt, ref):
             out.append(_walk_top(b, refmap, None))
         else: out.append(b)
     return '\n\n'.join(out)
+
+# ----------------------------------------------------------------------------- renamed functions
+# Renaming a function (definition and every call) changes no value, but the proofs mention the committed name.  A function that
+# the reference Gen file does not have, whose definition is -- after substituting the name -- the reference definition of a
+# function that no longer exists (up to the operand order of `+`/`*`), is that function: it is emitted under the reference name
+# everywhere (an alpha-renaming of a top-level constant; the Rust side of the correspondence run keeps calling the real name).
+
+def rename_like_reference(emitted, ref, report):
+    new = [n for n in emitted if n not in ref and '\n\n' not in emitted[n][0].strip('\n')]
+    gone = [m for m in ref if m not in emitted and not re.search(r'\.loop\d+$', m)]
+    done = {}
+    for n in new:
+        pat = r'(?<![\w.])' + re.escape(n) + r'(?![\w.])'
+        for m in gone:
+            if m in done.values(): continue
+            if re.search(r'(?<![\w.])' + re.escape(m) + r'(?![\w.])', ''.join(t for t, _ in emitted.values())): continue
+            cand = re.sub(pat, m, emitted[n][0]).strip('\n')
+            if cand == ref[m] or _canon(cand) == _canon(ref[m]):
+                done[n] = m; break
+    for n, m in done.items():
+        pat = r'(?<![\w.])' + re.escape(n) + r'(?![\w.])'
+        for k in list(emitted):
+            t, calls = emitted[k]
+            if isinstance(calls, (list, tuple)): calls2 = type(calls)(m if c == n else c for c in calls)
+            else: calls2 = {m if c == n else c for c in calls}
+            emitted[k] = (re.sub(pat, m, t), calls2)
+        items = [(m if k == n else k, v) for k, v in emitted.items()]
+        emitted.clear(); emitted.update(items)
+        for e in report.get('translated', []):
+            if e.get('name') == n: e['name'] = m
+    return {m: n for n, m in done.items()}
 
 # ----------------------------------------------------------------------------- inlining of helpers that the reference does not have
 # A refactor that moves an expression into a new private helper leaves every value unchanged, but the proofs unfold the callers
